@@ -806,8 +806,8 @@ class Engine:
 
 def _const_names(f, cache={}):
     k = f.get_id()
-    if k in cache:
-        return cache[k]
+    if k in cache and cache[k][0].eq(f):
+        return cache[k][1]
     names = set()
     seen = set()
     stack = [f]
@@ -823,5 +823,5 @@ def _const_names(f, cache={}):
             stack.append(e.body())
         else:
             stack.extend(e.children())
-    cache[k] = names
+    cache[k] = (f, names)      # keep the AST alive: ids are reused after garbage collection
     return names
